@@ -31,7 +31,9 @@ PARTIAL = [
     "the smoothers themselves (local polynomial fit, P-spline basis and penalty) are parameters here: the model pins their "
     "INPUTS per encoding (samples, weights, normal equations) and the implementation's outputs are compared encoding "
     "against encoding; their own correctness is C05/C06/C07",
-    "the smoothed mean used for centring is taken from the implementation (exact value of the floats) and fed to the model",
+    "the smoothed mean used for centring is taken from the implementation (exact value of the floats) and fed to the model; "
+    "the theorems are end to end for a PARAMETER smoother (mean/inner_product/covariance_enc_independent), the pooled and "
+    "binned samples handed to the smoother are compared with the model on the large cases",
     "square roots (norm, normalize) through squares; np.interp, np.unique, np.isin are modelled by their documented semantics",
     "2-D irregular data are outside the property's quantifier (1-D only)",
 ]
@@ -481,9 +483,17 @@ def _run_big(case):
     A, B, _ = _build(t, V, M.astype(int).tolist())
     bw = float(F(case["bw"]))
     out = dict(slots=int(n * m), observed=int(M.sum()))
+    out["t"] = [rs(Fraction(float(x))) for x in t]
+    out["V"] = [[rs(Fraction(float(x))) for x in r] for r in V]
+    out["M"] = M.astype(int).tolist()
     for key, fd in (("nan", A), ("rag", B)):
         o = {}
-        _try(o, "mean_lp", lambda: _vals(fd.mean(method_smoothing="LP", bandwidth=bw)))
+        with _Capture() as cap:
+            _try(o, "mean_lp", lambda: _vals(fd.mean(method_smoothing="LP", bandwidth=bw)))
+            o["mean_inputs"] = [dict(x=c["x"], y=c["y"]) for c in cap.lp[:1]]
+        with _Capture() as cap:
+            _try(o, "mean_lp_exact", lambda: _vals(fd.mean(method_smoothing="LP", bandwidth=bw, approx=False)))
+            o["mean_inputs_exact"] = [dict(x=c["x"], y=c["y"]) for c in cap.lp[:1]]
         _try(o, "center_lp", lambda: _content(fd.center(method_smoothing="LP", bandwidth=bw)))
         _try(o, "noise", lambda: float(fd.noise_variance()))
         _try(o, "to_long", lambda: _long(fd))
@@ -512,6 +522,9 @@ def _exactv(v):
 
 
 def model_lines(case, impl):
+    if case["kind"] == "big" and "__crash__" not in impl:
+        g = ",".join(impl["t"])
+        return [f"pool {g} {_M(impl['V'])} {_M(impl['M'])} 1", f"pool {g} {_M(impl['V'])} {_M(impl['M'])} 0"]
     if case["kind"] != "enc" or "__crash__" in impl:
         return []
     g = ",".join(case["t"])
@@ -583,6 +596,20 @@ def _penalty_matrix(K, order):
 def compare(case, impl, model):
     if "__crash__" in impl:
         return [f"implementation crashed: {impl['__crash__']} {impl.get('msg')} {impl.get('tb', '')[-200:]}"]
+    if case["kind"] == "big":
+        ds = []
+        for line, key in zip(model["outs"], ("mean_inputs", "mean_inputs_exact")):
+            for e, s_ in zip(("nan", "rag"), line.split(" | ")):
+                want = [] if s_ == "-" else [(float(F(p.split(":")[0])), F(p.split(":")[1])) for p in s_.split(",")]
+                got = (impl[e].get(key) or [None])[0]
+                if got is None:
+                    ds.append(f"{key}[{e}]: the mean smoother was not called")
+                    continue
+                pairs = list(zip(got["x"], got["y"]))
+                if len(pairs) != len(want) or any(a[0] != b[0] or not close(a[1], b[1], max(1.0, abs(float(b[1]))), 1e-12) for a, b in zip(pairs, want)):
+                    ds.append(f"{key}[{e}]: the mean smoother did not receive the model's pooled{' / binned' if key == 'mean_inputs' else ''} samples "
+                              f"({len(pairs)} samples, model {len(want)})")
+        return ds
     if case["kind"] != "enc":
         return []
     o = model["outs"]
@@ -894,9 +921,9 @@ def _oracle_sparsify(case, impl):
 
 def _oracle_big(case, impl):
     vs_ = []
-    for key in ("mean_lp", "center_lp", "noise", "to_long"):
+    for key in ("mean_lp", "mean_lp_exact", "center_lp", "noise", "to_long"):
         a, b = impl["nan"][key], impl["rag"][key]
-        entry = "IrregularFunctionalData." + ENTRY.get(key, key)
+        entry = "IrregularFunctionalData." + ENTRY.get(key, "mean" if key.startswith("mean") else key)
         if isinstance(a, str) or isinstance(b, str):
             if not (isinstance(a, str) and isinstance(b, str)):
                 vs_.append(dict(clause="encoding_independent", entry=entry, msg=f"large grid, {key}: {str(a)[:60]} vs {str(b)[:60]}"))
